@@ -55,8 +55,18 @@ func cfBuild(c *cfCase, w *world.World) *config.PikeConfig {
 			Servers: []config.UpstreamServerConfig{{Addr: w.UpAddr}}, Remark: "1e3"})
 	}
 	for _, l := range c.Locs {
-		pc.Locations = append(pc.Locations, config.LocationConfig{Name: cfNames[l.Name], Upstream: cfNames[l.Up], Prefixes: []string{"/"},
-			ReqHeaders: []string{"X-A:b c"}, ProxyTimeout: "30s"})
+		prefix := "/"
+		if l.Name == "l2" {
+			prefix = "/l2"
+		}
+		// values with `$`: nothing may expand them (a rewrite uses $1; a header may hold any text)
+		var hosts []string
+		if l.Name == "l2" {
+			hosts = []string{"h"} // host + prefix: more specific than l1 for /l2/... on host h
+		}
+		pc.Locations = append(pc.Locations, config.LocationConfig{Name: cfNames[l.Name], Upstream: cfNames[l.Up], Prefixes: []string{prefix}, Hosts: hosts,
+			Rewrites:   []string{"/rw/*:/$1"},
+			ReqHeaders: []string{"X-A:b c", "X-Loc:" + l.Name, "X-Env:costs $5 ${five} $HOME"}, ProxyTimeout: "30s", Remark: "costs $5 or ${five}"})
 	}
 	for i, s := range c.Servers {
 		var ls []string
@@ -89,6 +99,15 @@ func cfBuild(c *cfCase, w *world.World) *config.PikeConfig {
 		pc.Servers[0].CompressMinLength = "1 kilo"
 	case "badfilter":
 		pc.Servers[0].CompressContentTypeFilter = "(text"
+	case "duploc":
+		// two entries with the same name, the first one naming an upstream that does not exist
+		if len(pc.Locations) > 0 {
+			dup := pc.Locations[0]
+			dup.Upstream = cfNames["ux"]
+			pc.Locations = append([]config.LocationConfig{dup}, pc.Locations...)
+		} else {
+			pc.Caches[0].Size = 0
+		}
 	}
 	return pc
 }
@@ -118,6 +137,15 @@ func cfSecond(c *cfCase) *cfCase {
 		for i := range d.Servers {
 			d.Servers[i].Compress = ""
 		}
+	case "add_location":
+		// every server that lists only l1 now lists l2 as well (when l2 exists)
+		if len(d.Locs) == 2 {
+			for i := range d.Servers {
+				if len(d.Servers[i].Locs) == 1 && d.Servers[i].Locs[0] == "l1" {
+					d.Servers[i].Locs = []string{"l1", "l2"}
+				}
+			}
+		}
 	}
 	return &d
 }
@@ -146,7 +174,13 @@ func ConfigClosure(w *world.World, raws []json.RawMessage) ([]interface{}, error
 		upstream.ResetWithOnStats([]config.UpstreamConfig{{Name: "up", Servers: []config.UpstreamServerConfig{{Addr: w.UpAddr}}}}, nil)
 		location.Reset([]config.LocationConfig{{Name: "loc", Upstream: "up"}})
 	}()
-	w.Policy = func(ri *world.ReqInfo, req *http.Request) world.Outcome { return world.Outcome{Kind: "uncacheable"} }
+	w.Policy = func(ri *world.ReqInfo, req *http.Request) world.Outcome {
+		h := http.Header{}
+		h.Set("Cache-Control", "no-cache")
+		h.Set("X-Seen-Loc", req.Header.Get("X-Loc"))
+		h.Set("X-Seen-Env", req.Header.Get("X-Env"))
+		return world.Outcome{Kind: "raw", Header: h, Status: 200}
+	}
 	apply := func(pc *config.PikeConfig) {
 		compress.Reset(pc.Compresses)
 		cache.ResetDispatchers(pc.Caches)
@@ -214,6 +248,17 @@ func ConfigClosure(w *world.World, raws []json.RawMessage) ([]interface{}, error
 								probes = append(probes, "ok")
 							} else {
 								probes = append(probes, fmt.Sprintf("after reconfiguration: status %d: %s", r.Status, strings.TrimSpace(string(r.Body))))
+							}
+							// a location the server lists now is used: its prefix routes there
+							for _, ln := range s.Locations {
+								if ln == cfNames["l2"] {
+									r := w.DoCase("", names[si], "GET", "h", fmt.Sprintf("/l2/cf/%d", i), nil, nil)
+									if r.Status == 200 && r.Header.Get("X-Seen-Loc") == "l2" && r.Header.Get("X-Seen-Env") == "costs $5 ${five} $HOME" {
+										probes = append(probes, "ok")
+									} else {
+										probes = append(probes, fmt.Sprintf("after reconfiguration: /l2 answered by location %q env %q status %d", r.Header.Get("X-Seen-Loc"), r.Header.Get("X-Seen-Env"), r.Status))
+									}
+								}
 							}
 						}
 					}
